@@ -10,7 +10,7 @@ from ..util import Abort, Info, cm_enter, cm_exit, expect, expect_eq, impl
 ID = "C17"
 ATHERIS = True  # thorough tier: coverage-guided second engine over the same strategy/run_case
 LEVEL = "fault_enumeration"
-BUDGET = {"quick": 24000, "thorough": 1200000}
+BUDGET = {"quick": 24000, "thorough": 800000}
 RULE = (
     "case = (pre-existing dict over a 4-key universe, batch op list of set/del/get/"
     "contains/copy with <=12 ops, do_deletes); every case is executed once per exit "
